@@ -117,7 +117,12 @@ def term(n):
             return ('m', cal.get('name'), term(n.c[0])) + tuple(term(x) for x in n.c[1:] if x is not None and x.k != 'defarg')
         if a.get('indirect'):
             return ('ic',) + tuple(term(x) for x in n.c)
-        return ('c', cal.get('q')) + tuple(term(x) for x in n.c if x is not None and x.k != 'defarg')
+        q = cal.get('q')
+        ta = cal.get('targs')
+        if ta and ta[0][:1].isdigit():
+            # non-type template arguments select different values (std::get<0> vs std::get<1>)
+            q = '%s<%s>' % (q, ','.join(x.rstrip('ULul') for x in ta if x[:1].isdigit()))
+        return ('c', q) + tuple(term(x) for x in n.c if x is not None and x.k != 'defarg')
     if k == 'construct':
         cal = a.get('callee') or {}
         return ('new', cal.get('cls')) + tuple(term(x) for x in n.c if x is not None and x.k != 'defarg')
@@ -265,7 +270,10 @@ class Sem(object):
                         ptypes = sigs[0] if all(x == sigs[0] for x in sigs) else \
                             [('const X &' if all(len(x) > i and (x[i].startswith('const ') or not x[i].endswith('&')) for x in sigs) else 'X &')
                              for i in range(max(len(x) for x in sigs))]
-                if cal.get('q') in ('std::move', 'std::forward'):
+                if cal.get('q') in ('std::move', 'std::forward', 'std::get', 'std::begin', 'std::end', 'std::make_tuple', 'std::make_pair',
+                                    'boost::make_optional', 'std::min', 'std::max') or \
+                        cal.get('name') in ('emplace_back', 'emplace_front', 'emplace'):
+                    # accessors / perfect-forwarding constructors: arguments are read, not written
                     ptypes = []
                 for i, arg in enumerate(real_args(n)):
                     if arg is None:
